@@ -12,6 +12,9 @@ Check C38_default_binary_roundtrip_any_table :
   forall (T : ptab) e, bin_pos T e = true -> option_map strip (parse T (show (unparse false e))) = Some e.
 Check C38_default_binary_roundtrip :
   forall e, binary_only e = true -> reparse false e = Some e.
+Check C38_parenthesise_everything_roundtrips :
+  forall (T : ptab) e, ops_pos T e = true ->
+    option_map strip (parse T (show (to_ast_paren e))) = Some e /\ hazard (to_ast_paren e) = false.
 Check C38_default_not_operand_refuted :
   exists e e', reparse false e = Some e' /\ expr_eqb e' e = false /\
     e = EIs PIsNull (ENot (EAtom 3)) /\ e' = ENot (EIs PIsNull (EAtom 3)).
@@ -48,6 +51,8 @@ Check C38_nonvacuous_wf :
   wf_top sq_tab (unparse false e) = true /\ wf_top sq_tab (unparse true e) = true /\
   show (unparse true e) = [TAtom 0; TInfix (IOp OpEq); TAtom 1; TInfix (IOp OpAnd); TNot; TAtom 2; TPost PIsNull; TInfix (IOp OpAnd);
                            TAtom 6; TInfix (ILike LLike); TLP; TAtom 7; TInfix (IOp OpStringConcat); TAtom 30; TRP].
+Check C38_nonvacuous_paren :
+  ops_pos sq_tab (EBin OpAnd (EIs PIsNull (ENot (EAtom 3))) (EBin OpLt (ENeg (ENeg (EAtom 0))) (EAtom 1))) = true.
 Check C38_nonvacuous_binary :
   binary_only (EBin OpMinus (EAtom 0) (EBin OpMinus (EBin OpIsDistinctFrom (EAtom 1) (EBin OpBitwiseOr (EAtom 2) (EAtom 0))) (EAtom 1))) = true.
 Print Assumptions C38_parser_inverts_display.
@@ -55,6 +60,7 @@ Print Assumptions C38_unparse_means_the_expression.
 Print Assumptions C38_roundtrip_when_wf.
 Print Assumptions C38_default_binary_roundtrip_any_table.
 Print Assumptions C38_default_binary_roundtrip.
+Print Assumptions C38_parenthesise_everything_roundtrips.
 Print Assumptions C38_default_not_operand_refuted.
 Print Assumptions C38_default_is_operand_refuted.
 Print Assumptions C38_default_in_operand_refuted.
@@ -66,4 +72,5 @@ Print Assumptions C38_pretty_comparison_table_refuted.
 Print Assumptions C38_pretty_concat_table_refuted.
 Print Assumptions C38_pair_table.
 Print Assumptions C38_nonvacuous_wf.
+Print Assumptions C38_nonvacuous_paren.
 Print Assumptions C38_nonvacuous_binary.
